@@ -107,7 +107,9 @@ CONSTANTS
     ArgsByRef,   \* FALSE as the code is.  Seeded variant (self-test): the helper coroutine keeps references
                  \* to the caller's arguments instead of copies
     RegCtxs,     \* execution contexts of the registering call, subset of {"plain","guard","handler"}
-    ResCtxs,     \* execution contexts of the resolution, subset of {"plain","guard","handler","scope","local"}
+    ResCtxs,     \* execution contexts of the resolution, subset of {"plain","guard","handler","scope","local","assign"}
+    FactoryFail, \* {"fthrow"} | {}: the factory given to `adapter << factory` throws instead of returning a future
+                 \* (future::result_of, future.h:299-304: the exception becomes the operation's outcome)
     SkipUnwinding \* {} as the code is.  Seeded variant (self-test): adapters whose completion does not enter the
                  \* user's callback while an exception is propagating in the completing thread
 
@@ -128,8 +130,12 @@ Threads   == Res \cup {"a"}
 DtorCtx   == {"scope", "local"}              \* the future is resolved by ~promise (future.h:600-603)
 Unwinding(st, th) == st.cx[th] \in {"guard", "local"}     \* std::uncaught_exceptions() > 0 in thread th
 (* a resolution by outcome o in context x is a legal use of the library *)
-LegalRes(o, x) == x \in DtorCtx => (o = "drop" /\ Cardinality(Res) = 1)
-ASSUME RegCtxs \subseteq {"plain", "guard", "handler"} /\ ResCtxs \subseteq {"plain", "guard", "handler", "scope", "local"}
+LegalRes(o, x) == /\ x \in DtorCtx => (o = "drop" /\ Cardinality(Res) = 1)
+                  \* "assign": another promise (empty / of another future) is move-assigned into the promise variable
+                  \* while it still holds the unresolved target: promise::operator=(promise &&), future.h:608-614,
+                  \* drops the held target first (set_value(drop): claim exchange + resolve, as "plain" drop)
+                  /\ x = "assign" => (o = "drop" /\ Cardinality(Res) = 1)
+ASSUME RegCtxs \subseteq {"plain", "guard", "handler"} /\ ResCtxs \subseteq {"plain", "guard", "handler", "scope", "local", "assign"}
 
 (* cv: what the user's converter does.  ok: converts (x+100) / resolves the passed promise; throw: throws;
    ignore: promise-passing converter returns without touching the promise; later: it moves the promise
@@ -348,9 +354,12 @@ Register(t, o, x) ==
     /\ Grain = "call" /\ CanStart(s)
     /\ (t = "before") = (o # "none")
     /\ par.ad = "mkprom" => t = "after"
+    /\ o = "fthrow" => par.ad \in Conv \cup {"callfn"}      \* the `<<` forms (future.h:1049, future_conv.h)
     /\ LET s0 == [StartAlloc(s) EXCEPT !.cx["a"] = x]
+           \* a throwing factory IS an operation resolved with that exception before the adapter subscribes
+           oo == IF o = "fthrow" THEN "exc" ELSE o
            s1 == IF Deferred THEN [s0 EXCEPT !.q = "start", !.qpre = o]    \* detach(): helper queued
-                 ELSE BuildAndRun(s0, o, x)
+                 ELSE BuildAndRun(s0, oo, x)
        IN  s' = [s1 EXCEPT !.cx["a"] = "plain"]
     /\ UNCHANGED par
 
@@ -394,7 +403,7 @@ UserResolve ==
     /\ s' = [s EXCEPT !.user = "done", !.outer = [st |-> "val", v |-> CvBase(s, Result(s)) + 100]]
     /\ UNCHANGED par
 
-Next == \/ \E t \in {"before", "after"}, o \in Outcomes \cup {"none"}, x \in RegCtxs : Register(t, o, x)
+Next == \/ \E t \in {"before", "after"}, o \in Outcomes \cup {"none"} \cup FactoryFail, x \in RegCtxs : Register(t, o, x)
         \/ \E o \in Outcomes, x \in ResCtxs : Resolve(o, x)
         \/ Yield
         \/ Start \/ Check \/ Cas \/ Fence
